@@ -70,6 +70,8 @@ func zzSamePermits(a, b map[string]struct{}) bool {
 // service must equal the ledger's copy in everything IBTP handling reads (status, ordering,
 // black list, identity) - otherwise a running and a restarted replica judge the next IBTP
 // differently. Pre-state: service chB:sB with a symbolic black list, optionally already cached.
+// (also C16: the destination's black list and status are judged on the cached record)
+// zz:also C16
 func ZZH_C01_service_cache() {
 	exec := zzNewExec(4, big.NewInt(0))
 	svcAddr := constant.ServiceMgrContractAddr.Address()
@@ -142,7 +144,7 @@ func ZZH_C01_service_cache() {
 // zz:also C08
 func ZZH_C01_verify_sign() {
 	exec := zzNewExec(1, big.NewInt(0))
-	n := 2 + zz.Choice("ntx", 2)
+	n := 2 + zz.Choice("ntx", zz.Tier(2, 3))
 	var txs []pb.Transaction
 	var local []bool
 	bad := make([]bool, n)
